@@ -86,10 +86,15 @@ Definition symmetrise_unique_nd (shape : list nat) (data : list E) : list E * li
   symmetrise_unique (flattenF shape data).
 
 (* Miller.multiplicity:  _, l = self.symmetrise(unique=True, return_multiplicity=True)
-                         return l.reshape(self.shape)          (C-order reshape)
-   result as the C-order list of an array of shape self.shape *)
+                         return l.reshape(self.shape[::-1]).T
+   l is in the order of flatten() (column-major).  Reshaping it (C order) to
+   the REVERSED shape and transposing puts l[ravel (rev shape) (rev idx)] at
+   the multi-index idx: the inverse of flattenF.  Result as the C-order list
+   of an array of shape self.shape *)
+Definition unflattenF {A : Type} (dA : A) (shape : list nat) (l : list A) : list A :=
+  map (fun k => nth (ravel (rev shape) (rev (unravel shape k))) l dA) (seq 0 (size shape)).
 Definition multiplicity (shape : list nat) (data : list E) : list nat :=
-  snd (fst (symmetrise_unique_nd shape data)).
+  unflattenF 0 shape (snd (fst (symmetrise_unique_nd shape data))).
 
 (* the specification: number of distinct images of one vector *)
 Definition orbit_of (v : E) : list E := map (fun g => act g v) ops.
@@ -97,11 +102,16 @@ Definition block_of (v : E) : list E := uniq (orbit_of v).
 End Generic.
 
 (* =============================================== angle_with(use_symmetry=True)
-     other2 = other.symmetrise(unique=True)
-     cosines = self.dot_outer(other2) / (self.norm[..., None] * other2.norm[None, ...])
+     other2 = self.phase.point_group.outer(other)            (|G|,) + other.shape
+     other2 = other2.transpose( *range(1, other2.ndim), 0)    other.shape + (|G|,)
+     self2 = self.reshape( *self.shape, 1)                    self.shape + (1,)
+     cosines = self2.dot(other2) / (self2.norm * other2.norm)
      cosines = np.round(cosines, 12)
      angles = np.min(np.arccos(cosines), axis=-1)
-   generic part: minimum over a list (np.min raises on an empty axis) *)
+   self and other are broadcast against each other (NumPy rules, as without
+   symmetry); for every broadcast pair (v, w) the minimum runs over the images
+   of w only.  generic part: minimum over a list (np.min raises on an empty
+   axis) *)
 Section MinList.
 Context {A : Type} (leb : A -> A -> bool).
 Definition min2 (x y : A) : A := if leb x y then x else y.
@@ -110,13 +120,16 @@ Definition lmin (l : list A) : option A :=
 End MinList.
 
 Section AngleGeneric.
-Context {E A : Type} (leb : A -> A -> bool) (ang : E -> E -> A).
-(* one entry per vector of self (self keeps its shape); the minimum runs over
-   ALL vectors of other2 = the concatenated orbits of all vectors of other *)
-Definition angle_with_sym (self : list E) (other2 : list E) : option (list A) :=
-  match other2 with
+Context {G E A : Type} (leb : A -> A -> bool) (ang : E -> E -> A) (act : G -> E -> E) (ops : list G) (d : E).
+(* the smallest angle between v and an image of w *)
+Definition sym_min_angle (v w : E) : A :=
+  match lmin leb (map (fun g => ang v (act g w)) ops) with Some a => a | None => ang v w end.
+(* objects as (shape, C-order list); result = (broadcast shape, C-order list);
+   None = the shapes cannot be broadcast (ValueError) *)
+Definition angle_with_sym (sS sO : list nat) (self other : list E) : option (list nat * list A) :=
+  match ops with
   | [] => None
-  | _ => Some (map (fun v => match lmin leb (map (ang v) other2) with Some a => a | None => ang v v end) self)
+  | _ => bcast2 sym_min_angle d d sS sO self other
   end.
 End AngleGeneric.
 
@@ -164,8 +177,9 @@ Definition rdot (r s : list T) : T := vdot O (row2vec O r) (row2vec O s).
 Definition rnorm (r : list T) : T := o_sqrt O (rdot r r).
 Definition sym_angle (rnd12 : T -> T) (v w : list T) : T :=
   o_acos O (rnd12 (o_div O (rdot v w) (o_mul O (rnorm v) (rnorm w)))).
-Definition angle_with_sym_num (rnd12 : T -> T) (self other2 : list (list T)) : option (list T) :=
-  angle_with_sym (o_leb O) (sym_angle rnd12) self other2.
+Definition angle_with_sym_num (rnd12 : T -> T) (ops : list (rot (T:=T))) (sS sO : list nat)
+           (self other : list (list T)) : option (list nat * list T) :=
+  angle_with_sym (o_leb O) (sym_angle rnd12) ract_row ops [] sS sO self other.
 
 (* ---------------------------------------------------- _round_indices
      idx_flat = idx[..., [0, 1, 3]] if 4 indices
@@ -261,8 +275,8 @@ Definition zang_leb (p q : Z * Z) : bool :=
   let '(a, n) := p in let '(b, m) := q in
   if (0 <=? a)%Z then (if (0 <=? b)%Z then (b * b * n <=? a * a * m)%Z else true)
   else (if (0 <=? b)%Z then false else (a * a * m <=? b * b * n)%Z).
-Definition zangle_with_sym (ops : list zm3) (self other : list zv3) : option (list (Z * Z)) :=
-  angle_with_sym zang_leb zang self (fst (fst (zsym_unique ops other))).
+Definition zangle_with_sym (ops : list zm3) (self other : list zv3) : option (list nat * list (Z * Z)) :=
+  angle_with_sym zang_leb zang zact ops z0 [length self] [length other] self other.
 
 (* closure of a generator list under products (bounded iteration) *)
 Definition zadd_new (acc : list zm3) (x : zm3) : list zm3 :=
